@@ -167,9 +167,9 @@ def check_contract_premises(prog: Program, res: Result) -> None:
     H, W = "max_height / img_height", "max_width / img_width"
     if len(rz) == 1 and len(scaled) == 1:
         size = astq.call_arg(rz[0], 1, "size")
-        size = astq.expand_phi(fn, size)
+        size = astq.fold_literal_index(astq.expand_phi(fn, size))       # (a, b)[1] of a named size pair is b
         ratio = astq.expand_phi(fn, scaled[0].value.elts[1])
-        pad = astq.expand_phi(fn, astq.call_arg(pads[0], 1, "pad")) if len(pads) == 1 else None
+        pad = astq.fold_literal_index(astq.expand_phi(fn, astq.call_arg(pads[0], 1, "pad"))) if len(pads) == 1 else None
         ok_shape = isinstance(size, (ast.Tuple, ast.List)) and len(size.elts) == 2
         res.ob(R, ok_shape, fi.qualname, "resize to a (height, width) pair", f"the resize size is `{short(size, 60) if size is not None else '?'}`", fi.where)
         if ok_shape:
@@ -250,7 +250,15 @@ def check_contract_premises(prog: Program, res: Result) -> None:
             parts = split
             for x, tk in parts:
                 if isinstance(x, ast.Compare) and len(x.ops) == 1 and isinstance(x.ops[0], (ast.Eq, ast.NotEq)) and (isinstance(x.ops[0], ast.Eq) == tk):
-                    sides = {norm(x.left), norm(x.comparators[0])}
+                    def _tgt(e_):
+                        # `img_h if max_height is None else max_height`: the target, defaulted to the image's own size
+                        if isinstance(e_, ast.IfExp) and isinstance(e_.test, ast.Compare) and len(e_.test.ops) == 1 and isinstance(e_.test.ops[0], (ast.Is, ast.IsNot)) \
+                                and astq.const_value(e_.test.comparators[0]) is None and isinstance(e_.test.left, ast.Name):
+                            dflt, given = (e_.body, e_.orelse) if isinstance(e_.test.ops[0], ast.Is) else (e_.orelse, e_.body)
+                            if norm(given) == e_.test.left.id and ".shape" in norm(dflt):
+                                return e_.test.left.id
+                        return norm(e_)
+                    sides = {_tgt(x.left), _tgt(x.comparators[0])}
                     for dim, prm in (("h", "max_height"), ("w", "max_width")):
                         if prm in sides and any(".shape" in s_ for s_ in sides - {prm}):
                             eq.add(dim)
